@@ -15,6 +15,8 @@ func runC01(c *Ctx) {
 	c.Clause("C01.3 a lost STREAM frame is re-queued on its stream and the sender is notified, unless the stream was reset; every STREAM frame handed to loss recovery carries its stream's handler; retransmission-queue frames carry the queue's handler")
 	c.Clause("C01.4 DATAGRAM frames are packed without a retransmission handler, and the handler-patching loop of the packer starts exactly at the frames framer.Append added")
 	c.Clause("C01.5 received DATAGRAM payloads are copied out of the packet buffer before they are queued")
+	c.Clause("C01.11 every change of Conn.handshakeDestConnID is followed by connIDManager.ChangeInitialConnID (what outgoing packets actually carry)")
+	c.Clause("C01.12 a short-header packet that carries STREAM frames restarts the idle timer's first-ack-eliciting-after-idle mark")
 	c.Clause("C01.10 the streams call back into the connection only after releasing their own mutex (a deadlock between stream and framer stops delivery for good)")
 	c.Clause("C01.9 datagram queue wake-ups: a queued datagram signals the blocked Receive, a Pop signals the blocked Add, close releases both with the error already recorded")
 	c.Clause("C01.6 the run-loop timer folds in the loss-detection and ACK deadlines whenever the connection can still send probes/ACKs")
@@ -32,6 +34,8 @@ func runC01(c *Ctx) {
 	c.rule("C01.7", func() { c01Guarded(c) })
 	c.rule("C01.9", func() { datagramQueueWakeups(c, "C01.9") })
 	c.rule("C01.10", func() { c17CallbacksOutsideStreamMutex(c, "C01.10") })
+	c.rule("C01.11", func() { c01HandshakeDestConnIDPair(c, "C01.11") })
+	c.rule("C01.12", func() { c17IdleRestartCountsStreamFrames(c, "C01.12") })
 	c.rule("C01.8", func() { c01HasMoreAfterRetransmission(c) })
 }
 
